@@ -101,12 +101,20 @@ impl<'a> Gen<'a> {
                 }
                 0 | 1 => {
                     let a = leaf(self);
-                    let b = if self.w.chance(1, 3) { T::list(vec![leaf(self), leaf(self)]) } else { leaf(self) };
+                    let b = match self.w.below(6) {
+                        0 | 1 => T::list(vec![leaf(self), leaf(self)]),
+                        2 => T::cmp(0, leaf(self), leaf(self)),
+                        _ => leaf(self),
+                    };
                     G::Eq(a, b)
                 }
                 2 | 3 | 4 => {
                     let a = leaf(self);
-                    let b = if self.w.chance(1, 3) { T::list(vec![leaf(self), leaf(self)]) } else { leaf(self) };
+                    let b = match self.w.below(6) {
+                        0 | 1 => T::list(vec![leaf(self), leaf(self)]),
+                        2 => T::cmp(0, leaf(self), leaf(self)),
+                        _ => leaf(self),
+                    };
                     G::Neq(a, b)
                 }
                 _ => self.suspension(),
